@@ -5,6 +5,7 @@ CONSTANTS
   VSizes = {12, 40}
   Limit = 255
   DigMode = "spread"
+  Persist = FALSE
   GrowUntil = 0
   ShrinkFrom = 1000000
   EmitDepth = 100
